@@ -244,7 +244,10 @@ func filterDefault(ctx stick.Context, val stick.Value, args ...stick.Value) stic
 
 func filterFirst(ctx stick.Context, val stick.Value, args ...stick.Value) stick.Value {
 	if stick.IsArray(val) {
-		arr := reflect.ValueOf(val)
+		arr := reflect.Indirect(reflect.ValueOf(val))
+		if arr.Len() == 0 {
+			return nil
+		}
 		return arr.Index(0).Interface()
 	}
 
@@ -322,7 +325,10 @@ func filterKeys(ctx stick.Context, val stick.Value, args ...stick.Value) stick.V
 
 func filterLast(ctx stick.Context, val stick.Value, args ...stick.Value) stick.Value {
 	if stick.IsArray(val) {
-		arr := reflect.ValueOf(val)
+		arr := reflect.Indirect(reflect.ValueOf(val))
+		if arr.Len() == 0 {
+			return nil
+		}
 		return arr.Index(arr.Len() - 1).Interface()
 	}
 
@@ -430,7 +436,7 @@ func filterReplace(ctx stick.Context, val stick.Value, args ...stick.Value) stic
 
 func filterReverse(ctx stick.Context, val stick.Value, args ...stick.Value) stick.Value {
 	if stick.IsArray(val) {
-		arr := reflect.ValueOf(val)
+		arr := reflect.Indirect(reflect.ValueOf(val))
 		res := make([]interface{}, 0)
 		for i := arr.Len() - 1; i >= 0; i-- {
 			res = append(res, arr.Index(i).Interface())
